@@ -48,6 +48,9 @@ type verifJobOpts struct {
 	retryDelay    bool
 	inv8          bool // assume the status.tasks invariant
 	concreteTimes bool // task timestamps are fixed distinct instants (ordering not explored)
+	symFinish     bool // ... except finish timestamps, which stay symbolic
+	oneResult     bool // finished refs are Failed (result not explored)
+	noRunning     bool // refs never carry a running timestamp
 }
 
 func (o verifJobOpts) instant(name string, k int) time.Time {
@@ -162,7 +165,7 @@ func verifDrawJobState(o verifJobOpts) *verifJob {
 		pi := j.indexes[r.pidx]
 		ref.ParallelIndex = &pi
 		ref.Status.State = execution.TaskStarting
-		if vz.Bool("ref.hasRunning") {
+		if !o.noRunning && vz.Bool("ref.hasRunning") {
 			r.hasRunning = true
 			r.running = o.instant("ref.running", 10*i+1)
 			t := metav1.NewTime(r.running)
@@ -171,11 +174,19 @@ func verifDrawJobState(o verifJobOpts) *verifJob {
 		}
 		if vz.Bool("ref.hasFinished") {
 			r.hasFinished = true
-			r.finished = o.instant("ref.finished", 10*i+2)
+			if o.symFinish {
+				r.finished = vz.InstantNear("ref.finished")
+			} else {
+				r.finished = o.instant("ref.finished", 10*i+2)
+			}
 			t := metav1.NewTime(r.finished)
 			ref.FinishTimestamp = &t
 			ref.Status.State = execution.TaskTerminated
-			switch vz.Choice("ref.result", 3) {
+			rc := 1
+			if !o.oneResult {
+				rc = vz.Choice("ref.result", 3)
+			}
+			switch rc {
 			case 0:
 				r.result = execution.TaskSucceeded
 			case 1:
